@@ -2,7 +2,7 @@
 import os
 
 from . import core
-from .rules import stdio, cert, mark, exact, optstore, inval, idx, atomic, own, tokens, idxclass, copy, pair, structfree, buf, div, counter, sentinel, appendinit, verdict, basismap, zerotol, escape, lenclass, djsym, ndet, useb4check, norms, opencheck, shell, esolver, errlost, rescan, certdep, neverset, fmt, defaults, scratch, fullscan, slotleak, floatidx, sensemap, trunc, vtypezero, allockind, intdiv, strscan, localfield, rawidx, argcap, staleptr, condalloc, lpstate, vstattype, alphabet, outleak, fieldleak, lenm1, basisdim, dupmark, rowcopy, normlen, logonly, decacc, nzcount, infmap, lognofail, outunset
+from .rules import stdio, cert, mark, exact, optstore, inval, idx, atomic, own, tokens, idxclass, copy, pair, structfree, buf, div, counter, sentinel, appendinit, verdict, basismap, zerotol, escape, lenclass, djsym, ndet, useb4check, norms, opencheck, shell, esolver, errlost, rescan, certdep, neverset, fmt, defaults, scratch, fullscan, slotleak, floatidx, sensemap, trunc, vtypezero, allockind, intdiv, strscan, localfield, rawidx, argcap, staleptr, condalloc, lpstate, vstattype, alphabet, outleak, fieldleak, lenm1, basisdim, dupmark, rowcopy, normlen, logonly, decacc, nzcount, infmap, lognofail, outunset, dupentry
 from .effects import Effects
 
 FIX = os.path.join(os.path.dirname(os.path.abspath(__file__)), "fixtures")
@@ -285,7 +285,7 @@ PROPS = {
     "C07": {
         "rules": [lambda prog, tier: idx.run(prog), lambda prog, tier: atomic.run(prog), lambda prog, tier: shell.run(prog, shared_eff(prog)),
                   lambda prog, tier: lpstate.run(prog),
-                  lambda prog, tier: alphabet.run(prog, shared_eff(prog)), lambda prog, tier: basisdim.run(prog), lambda prog, tier: dupmark.run(prog), lambda prog, tier: logonly.run(prog), lambda prog, tier: lognofail.run(prog), lambda prog, tier: outunset.run(prog), lambda prog, tier: alphabet.run_narrow(prog),
+                  lambda prog, tier: alphabet.run(prog, shared_eff(prog)), lambda prog, tier: basisdim.run(prog), lambda prog, tier: dupmark.run(prog), lambda prog, tier: logonly.run(prog), lambda prog, tier: lognofail.run(prog), lambda prog, tier: outunset.run(prog), lambda prog, tier: alphabet.run_narrow(prog), lambda prog, tier: dupentry.run(prog),
                   lambda prog, tier: errlost.run(prog, scope_funcs=set(prog.reachable(sorted(f.key for f, _ in inval.api_functions(prog)))), floor=150)],
         "technique": "interprocedural taint of API index/selector arguments + path-sensitive must-analysis of range-guard facts "
                      "(right dimension, right strictness) on clang::CFG with callee preconditions propagated to the API boundary and "
@@ -545,7 +545,7 @@ PROPS = {
                   lambda prog, tier: argcap.run(prog, floor=40),
                   lambda prog, tier: staleptr.run(prog, shared_eff(prog)),
                   lambda prog, tier: condalloc.run(prog),
-                  lambda prog, tier: lpstate.run(prog), lambda prog, tier: lpstate.run_internal(prog), lambda prog, tier: lenm1.run(prog), lambda prog, tier: basisdim.run(prog), lambda prog, tier: normlen.run(prog), lambda prog, tier: inval.run_pricedim(prog, shared_eff(prog)), lambda prog, tier: logonly.run(prog), lambda prog, tier: decacc.run(prog), lambda prog, tier: outunset.run(prog),
+                  lambda prog, tier: lpstate.run(prog), lambda prog, tier: lpstate.run_internal(prog), lambda prog, tier: lenm1.run(prog), lambda prog, tier: basisdim.run(prog), lambda prog, tier: normlen.run(prog), lambda prog, tier: inval.run_pricedim(prog, shared_eff(prog)), lambda prog, tier: logonly.run(prog), lambda prog, tier: decacc.run(prog), lambda prog, tier: outunset.run(prog), lambda prog, tier: dupentry.run(prog),
                   lambda prog, tier: neverset.run(prog),
                   lambda prog, tier: fmt.run(prog), lambda prog, tier: fmt.run_args(prog),
                   lambda prog, tier: floatidx.run(prog),
@@ -695,7 +695,9 @@ _ADD = {
                            "path through a branch that logs a complaint and leaves the function at once returns an error code that is certainly zero "
                            "(an unknown name reported and answered with 0). (R-OUTUNSET) a local whose address goes to an out-parameter that a "
                            "successful return may leave unwritten (callee summary, path-sensitive on the error code) is not read before it is assigned. "
-                           "(R-NARROW) an int selector of a public function is compared with constants before it is stored into char storage."},
+                           "(R-NARROW) an int selector of a public function is compared with constants before it is stored into char storage. (R-DUPENTRY) an "
+                           "index list that becomes the entries of one matrix column / row is tested for repeats (mark form or sorted-copy form, in the "
+                           "function or a helper whose verdict it tests)."},
     "C08": {"technique": "; all-paths constant propagation through the '/' case of the exact literal scanner; flag-state dataflow for stores into the "
                          "raw LP's bounds; machine-word sink census; exit-condition analysis of the emission loops",
             "explanation": " (R-RESCAN) the '/' case of the exact literal scanner restores every scanner state variable; (R-EXPLICITBND) the raw LP's "
